@@ -199,6 +199,21 @@ def run(rep, tier, seed, replay=None):
             n4 = rng.choice([10, 200, 3000, 30000])
             s4 = cnt.to_bytes(2, "big") + bytes(rng.choice([0, 0xff, 0x55]) for _ in range(n4))
             inputs.append(("claimed_count_x_long_sequence", bufrmsg.build(4, [101000, 31002, d], 1, False, s4)))
+        # section length fields at their lower boundary: every 3-octet section length of a well-formed message (with and without
+        # Section 2, editions 2-4) replaced by 0..7 - shorter than the section's own fixed header (unsigned length arithmetic,
+        # even-padding rule of editions <= 3) - with the rest of the message, and some trailing bytes, left in place
+        for ed in (2, 3, 4):
+            for s2 in (None, b"local use", b"x"):
+                base = bufrmsg.build(ed, [1001, 1002], 1, False, bytes([1, 2, 3, 4]), s2=s2)
+                offs = [8]
+                offs.append(offs[-1] + int.from_bytes(base[offs[-1]:offs[-1] + 3], "big"))
+                if s2 is not None:
+                    offs.append(offs[-1] + int.from_bytes(base[offs[-1]:offs[-1] + 3], "big"))
+                offs.append(offs[-1] + int.from_bytes(base[offs[-1]:offs[-1] + 3], "big"))
+                for o in offs:
+                    for v in range(8):
+                        for tail in (b"", b"A" * 300):
+                            inputs.append(("section_length_boundary", base[:o] + v.to_bytes(3, "big") + base[o + 3:] + tail))
     text = "\n".join(m.hex() for _, m in inputs) + "\n"
     rc, out, err = vlib.sh([exe, str(LIMIT_S)], input=text.encode(), timeout=3600, env=vlib.ASAN_ENV)
     outs = [l for l in out.split("\n") if l]
@@ -241,7 +256,7 @@ def run(rep, tier, seed, replay=None):
     if not proved and not rep.violations:
         rep.violation("C05: proof obligations no longer check and no failing input was found", getattr(rep, "proof_broken", {}), no_input=True)
     rep.cov["traces_validated_against_impl"] = len(outs)
-    rep.cov["rule"] = ("byte strings up to 64 KiB: valid messages (generated + Test/BUFR/*.bufr), bit/byte mutations, truncations, insertions, corrupted length fields, random bytes, "
+    rep.cov["rule"] = ("byte strings up to 64 KiB: valid messages (generated + Test/BUFR/*.bufr), bit/byte mutations, truncations, insertions, corrupted length fields, every section length field set to 0..7 (below the section's own header; editions 2-4, with/without Section 2, with trailing bytes), random bytes, "
                        "well-framed messages whose Section 3 holds arbitrary F/X/Y (unbalanced and self-overlapping replication, operators with extreme operands, bitmap operators) over random Section 4 bits, "
                        "hostile shapes (deep fixed replication, huge claimed factors over little data); each decoded in a forked child under ASan/UBSan, 64 MiB stack, %d s alarm, exit() wrapped. "
                        "distinct = distinct inputs" % LIMIT_S)
